@@ -54,6 +54,26 @@ where T: Types
 
     /// Shared with `FlushWorker`; stores the highest completed seq.
     done_seq: Arc<AtomicU64>,
+
+    /// The FlushWorker thread; joined when the WAL is dropped.
+    worker: Option<std::thread::JoinHandle<()>>,
+}
+
+/// Dropping the WAL waits for the FlushWorker to finish the requests already
+/// queued (writes, syncs, chunk removals) and to exit, so that nothing
+/// touches the directory any more once the drop returns.
+impl<T> Drop for RaftLogWAL<T>
+where T: Types
+{
+    fn drop(&mut self) {
+        // Close the request channel: the worker drains the queue and quits.
+        let (closed_tx, _) = std::sync::mpsc::sync_channel(1);
+        drop(std::mem::replace(&mut self.flush_tx, closed_tx));
+
+        if let Some(worker) = self.worker.take() {
+            let _ = worker.join();
+        }
+    }
 }
 
 impl<T> RaftLogWAL<T>
@@ -89,7 +109,7 @@ where T: Types
         let (flush_tx, rx) = std::sync::mpsc::sync_channel(1024);
         let worker = FlushWorker::new(rx, file_entry, cache, done_seq.clone());
 
-        worker.spawn();
+        let worker = worker.spawn();
 
         Self {
             config,
@@ -98,6 +118,7 @@ where T: Types
             flush_tx,
             sent_seq: 0,
             done_seq,
+            worker: Some(worker),
         }
     }
 
